@@ -29,6 +29,75 @@ RAW_NEXT = "<journal::reader::JournalReader as std::iter::Iterator>::next"
 W = R.WRITER
 
 
+def tail_repair(ctx, rule):
+    """the tail-repair argument shared with C02 (R-C02.7): what recovery leaves at the end of a journal decides whether
+    writes acknowledged AFTER that recovery are still readable by the next one"""
+    F = ctx.F
+    cg = ctx.cg
+    # every truncate_to, wherever it is called, cuts at the batch reader's own last_valid_pos (end of the last VERIFIED batch);
+    # the raw reader's last_valid_pos is the end of the last decoded ENTRY and may lie inside an unterminated batch
+    tcs = [(F.fns[f], b) for f, b in cg.callers("journal::batch_reader::JournalBatchReader::truncate_to") if f in F.fns]
+    ctx.floor(rule, "truncate_to call sites", tcs, 4)
+    for fn, b in tcs:
+        term = ctx.og(fn).of_operand(fn.term(b)["args"][1])
+        ok = A.access_path(term) == ("P1", "last_valid_pos") and "JournalBatchReader" in fn.local_ty(1)
+        n = sum(1 for f2, b2 in tcs if f2.id == fn.id and b2 < b) + 1
+        ctx.ob(rule, fn, "truncate_to#%d-cuts-at-last-verified-batch" % n, ok,
+               "truncate_to(self.last_valid_pos)" if ok else "truncate_to(%s): not the end of the last verified batch — an unterminated batch prefix (Start, items, no End) stays in the file and every batch appended later is discarded by the next recovery" % A.tstr(term)[:80], fn.loc(b))
+
+    # the raw reader: a decode failure that ends the iteration (None) first cuts the undecodable tail off, so that the
+    # append-mode writer continues right after the last decodable entry
+    rn = ctx.fn(RAW_NEXT, rule)
+    if rn:
+        MT = "journal::reader::JournalReader::maybe_truncate_file_to_last_valid_pos"
+        mt = R.call_blocks(rn, (MT, "journal::reader::JournalReader::truncate_file"))
+        dec_b = R.call_blocks(rn, ("journal::entry::Entry::decode_from",))
+        nones = []
+        for b, blk in enumerate(rn.blocks):
+            if blk["cleanup"]:
+                continue
+            for st in blk["s"]:
+                if st["p"]["l"] == 0 and not st["p"]["p"] and st["rv"]["k"] == "agg" and st["rv"].get("variant") == "None":
+                    nones.append(b)
+        ctx.floor(rule, "`None` results of the raw journal reader", nones, 2)
+        for i, nb in enumerate(sorted(nones)):
+            ok = bool(mt) and bool(dec_b) and nb not in A.reach(rn, [0], avoid=mt)
+            ctx.ob(rule, rn, "raw-none#%d-preceded-by-tail-truncation" % (i + 1), ok,
+                   "the raw reader stops (None) only after maybe_truncate_file_to_last_valid_pos()" if ok
+                   else "the raw reader can stop (None) on an undecodable tail without cutting it off: a torn marker stays at the end of the file and the bytes appended next are welded onto it — the next recovery desynchronises and truncates every later batch", rn.loc(nb))
+        lv = A.field_assigns(rn, "last_valid_pos", "JournalReader")
+        ok = False
+        if len(lv) == 1 and dec_b:
+            rf = A.result_flow(rn, dec_b[0])
+            ok = any(A.dominates(rn, o, lv[0][0]) or o == lv[0][0] for o in rf.ok_blocks) and not any(lv[0][0] in A.reach(rn, [e]) for e in rf.err_blocks)
+        ctx.ob(rule, rn, "raw-last_valid_pos-advances-only-after-a-decoded-entry", ok,
+               "reader.last_valid_pos is assigned only on decode_from's Ok edge" if ok else "reader.last_valid_pos is assigned at %d site(s), not only after a successfully decoded entry" % len(lv))
+    mtf = ctx.fn("journal::reader::JournalReader::maybe_truncate_file_to_last_valid_pos", rule)
+    if mtf:
+        og = ctx.og(mtf)
+        tf = R.call_blocks(mtf, ("journal::reader::JournalReader::truncate_file",))
+        ok = False
+        detail = "maybe_truncate_file_to_last_valid_pos never truncates"
+        if tf:
+            arg = og.of_operand(mtf.term(tf[0])["args"][1])
+            okarg = A.access_path(arg) == ("P1", "last_valid_pos")
+            # skipped only when the stream position is not beyond last_valid_pos
+            okcond = False
+            for b, blk in enumerate(mtf.blocks):
+                if blk["t"]["k"] == "switch" and not blk["cleanup"]:
+                    cmp_ = A.compare_switch(mtf, b, og)
+                    if not cmp_:
+                        continue
+                    less = A.edges_where_less(cmp_, lambda t: A.access_path(t) == ("P1", "last_valid_pos"),
+                                              lambda t: any(x.k == "call" and "stream_position" in x.a[0] for x in A.walk(t)))
+                    if less:
+                        okcond = okcond or all(tf[0] in A.reach(mtf, [tgt]) for tgt in less)
+            ok = okarg and okcond
+            detail = "truncate_file(self.last_valid_pos) whenever stream_position() > self.last_valid_pos" if ok else "raw tail truncation: argument %s, taken-when-beyond-valid-pos=%s" % (A.tstr(arg)[:60], okcond)
+        ctx.ob(rule, mtf, "raw-truncation-cuts-at-last-decoded-entry", ok, detail)
+
+
+
 def run(ctx):
     F = ctx.F
     cg = ctx.cg
@@ -154,6 +223,8 @@ def run(ctx):
         esc = [x for x in oc.return_blocks() if x in r]
         ok = bool(tb) and not esc
         ctx.ob("R-C03.3", oc, "truncates-when-inside-batch", ok, "on_close truncates to last_valid_pos whenever a batch is still open" if ok else "on_close can return with an open (incomplete) batch left in the file")
+
+    tail_repair(ctx, "R-C03.3")
 
     # ---- R-C03.3b the repaired file ends exactly at the last valid position (the writer appends at end-of-file)
     for fid in ("journal::batch_reader::JournalBatchReader::truncate_to", "journal::reader::JournalReader::truncate_file"):
